@@ -570,14 +570,16 @@ func Queue[V any](arguments ...any) col.QueueLike[V] {
 	case sequence != nil:
 		queue = class.MakeFromSequence(sequence)
 	case len(source) > 0:
-		queue = class.Make()
+		// The queue must have room for all of the values in the source.
+		var list = col.List[V](notation).Make()
 		var collection = notation.ParseSource(source).(col.Sequential[any])
 		// Convert the values to their real type.
 		var iterator = collection.GetIterator()
 		for iterator.HasNext() {
 			var value = iterator.GetNext().(V)
-			queue.AddValue(value)
+			list.AppendValue(value)
 		}
+		queue = class.MakeFromSequence(list)
 	default:
 		queue = class.Make()
 	}
